@@ -232,7 +232,7 @@ dither_write_short	(SF_PRIVATE *psf, const short *ptr, sf_count_t len)
 		writecount /= psf->sf.channels ;
 		writecount *= psf->sf.channels ;
 
-		dither_short (ptr, (short*) pdither->buffer, writecount / psf->sf.channels, psf->sf.channels) ;
+		dither_short (ptr + total, (short*) pdither->buffer, writecount / psf->sf.channels, psf->sf.channels) ;
 
 		thiswrite = (int) pdither->write_short (psf, (short*) pdither->buffer, writecount) ;
 		total += thiswrite ;
@@ -278,7 +278,7 @@ dither_write_int	(SF_PRIVATE *psf, const int *ptr, sf_count_t len)
 		writecount /= psf->sf.channels ;
 		writecount *= psf->sf.channels ;
 
-		dither_int (ptr, (int*) pdither->buffer, writecount / psf->sf.channels, psf->sf.channels) ;
+		dither_int (ptr + total, (int*) pdither->buffer, writecount / psf->sf.channels, psf->sf.channels) ;
 
 		thiswrite = (int) pdither->write_int (psf, (int*) pdither->buffer, writecount) ;
 		total += thiswrite ;
@@ -323,7 +323,7 @@ dither_write_float	(SF_PRIVATE *psf, const float *ptr, sf_count_t len)
 		writecount /= psf->sf.channels ;
 		writecount *= psf->sf.channels ;
 
-		dither_float (ptr, (float*) pdither->buffer, writecount / psf->sf.channels, psf->sf.channels) ;
+		dither_float (ptr + total, (float*) pdither->buffer, writecount / psf->sf.channels, psf->sf.channels) ;
 
 		thiswrite = (int) pdither->write_float (psf, (float*) pdither->buffer, writecount) ;
 		total += thiswrite ;
@@ -369,7 +369,7 @@ dither_write_double	(SF_PRIVATE *psf, const double *ptr, sf_count_t len)
 		writecount /= psf->sf.channels ;
 		writecount *= psf->sf.channels ;
 
-		dither_double (ptr, (double*) pdither->buffer, writecount / psf->sf.channels, psf->sf.channels) ;
+		dither_double (ptr + total, (double*) pdither->buffer, writecount / psf->sf.channels, psf->sf.channels) ;
 
 		thiswrite = (int) pdither->write_double (psf, (double*) pdither->buffer, writecount) ;
 		total += thiswrite ;
